@@ -590,7 +590,9 @@ PROGRAMS = [
     ],
 ]
 
-TOKEN_RE = re.compile(r"'(?:[^']|'')*'|\"(?:[^\"]|\"\")*\"|\.[A-Za-z]+\.|[A-Za-z_]\w*|\d+\.?\d*(?:[edED][+-]?\d+)?(?:_\w+)?|\*\*|//|==|/=|<=|>=|=>|::|\S")
+# (a BOZ constant b'1010' and a character literal with a kind prefix k_'abc' are one token each, so are the array-constructor
+#  brackets: a continuation between their parts is a split *inside* a token, which the layouts make only where they say so)
+TOKEN_RE = re.compile(r"(?:\b[bBoOzZ]|\b[A-Za-z]\w*_)?'(?:[^']|'')*'|(?:\b[bBoOzZ]|\b[A-Za-z]\w*_)?\"(?:[^\"]|\"\")*\"|\(/|/\)|\.[A-Za-z]+\.|[A-Za-z_]\w*|\d+\.?\d*(?:[edED][+-]?\d+)?(?:_\w+)?|\*\*|//|==|/=|<=|>=|=>|::|\S")
 
 
 def squeeze(text):
